@@ -3,6 +3,7 @@ package nsim
 import (
 	"bytes"
 	"encoding/binary"
+	"encoding/json"
 	"fmt"
 	"os"
 	"path/filepath"
@@ -73,6 +74,10 @@ func genDisk(variant string, seed uint64, tier string) *Plan {
 		nw = r.Range(1, 2)
 		nph = r.Range(1, 3)
 		during = 0
+		if k["delta"] == 1 && r.Bool(0.6) {
+			// deletes and snapshot churn during the backup put records into the delta files
+			during = r.Range(1, 2)
+		}
 		maxOps = 6
 		k["shards"] = []int{1, 2, 3, 16}[r.Intn(4)]
 		k["load_conc"] = []int{1, 2, 8}[r.Intn(3)]
@@ -97,6 +102,21 @@ func genDisk(variant string, seed uint64, tier string) *Plan {
 		k["restored_phases"] = 0
 		k["shards"] = []int{1, 2, 3, 4}[r.Intn(4)]
 	}
+	if (variant == "damage" || variant == "crashimg" || variant == "wfault") && k["delta"] == 1 && r.Bool(0.6) {
+		// make the delta files matter: snapshot items are deleted and collected while the
+		// (stalled) backup runs, so that they exist only in the delta files
+		k["race"] = 1
+		k["mm"] = 1
+		k["store_snap"] = 0
+		k["store_conc"] = 1
+		k["shards"] = r.Range(1, 3)
+		if nkeys < 3 {
+			nkeys = r.Range(3, 6)
+		}
+		if during < 2 {
+			during = 2
+		}
+	}
 	if nkeys == 0 {
 		nkeys = 1
 		k["empty"] = 1
@@ -116,7 +136,7 @@ func genDisk(variant string, seed uint64, tier string) *Plan {
 			}
 		}
 		x := r.Intn(10)
-		if variant == "backup_race" && ph >= nph {
+		if (variant == "backup_race" || k["race"] == 1) && ph >= nph {
 			x = 3 + r.Intn(7) // mostly deletes while the backup runs
 		}
 		switch {
@@ -157,7 +177,7 @@ func genDisk(variant string, seed uint64, tier string) *Plan {
 	// closers running during the backup
 	tp := TaskPlan{Name: "c0", Phase: -1}
 	ncl := r.Range(0, 3)
-	if variant == "backup_race" {
+	if variant == "backup_race" || k["race"] == 1 {
 		ncl = r.Range(3, 8)
 	}
 	for j := 0; j < ncl; j++ {
@@ -179,6 +199,15 @@ func genDisk(variant string, seed uint64, tier string) *Plan {
 		p.Sched.Strategy = "random"
 		p.Sched.P = 0.02
 		p.Sched.StallLen = 0
+	}
+	if k["race"] == 1 && variant != "backup_race" {
+		p.Sched.Strategy = "random"
+		p.Sched.P = []float64{0.02, 0.1}[r.Intn(2)]
+		p.Sched.Bias = "eager"
+		p.Sched.Disabled = nil
+		p.Sched.StallSite = []int{nitro.SiteVisitorItem, SiteHarnessCallback}[r.Intn(2)]
+		p.Sched.StallNth = r.Range(1, 3)
+		p.Sched.StallLen = r.Range(300, 3000)
 	}
 	return p
 }
@@ -373,8 +402,16 @@ func (dr *diskRun) load(dir string, tag string) *loadResult {
 		s.EndOp()
 		done = true
 	})
+	bad0 := 0
+	if ne2.ga != nil {
+		bad0 = ne2.ga.BadFrees
+	}
 	lr.verdict = s.Run()
 	_ = done
+	if ne2.ga != nil && ne2.ga.BadFrees > bad0 {
+		// a real allocator aborts the process on a double free: the load "panics"
+		env.Violate("C11", "load-frees-block-twice", "LoadFromDisk(%s) returned a block to the allocator twice (%d bad frees); under a real allocator the process aborts", tag, ne2.ga.BadFrees-bad0)
+	}
 	if lr.verdict == VQuiescent && lr.panicV == "" && lr.err == nil && lr.snap != nil {
 		it := lr.snap.NewIterator()
 		if it != nil {
@@ -459,6 +496,8 @@ func (dr *diskRun) checkBackup() {
 			env.Violate("C05", "delta-accounting", "DeltaRestored=%d + DeltaRestoreFailed=%d but %d delta records were written", restored, failed, len(delta))
 		}
 	}
+	// C19: a reader given the older format version decodes files framed in that format
+	dr.checkVersion0()
 	// C14: structure after restore
 	ne2 := lr.ne
 	// the restored instance is described by a model initialised with the stored content
@@ -573,12 +612,32 @@ func damageClass(what string) string {
 	return "other"
 }
 
+func (dr *diskRun) probeDelta() {
+	data, delta, _ := backupContent(dr.dir)
+	inData := map[string]bool{}
+	for _, b := range data {
+		inData[string(b)] = true
+	}
+	only := 0
+	for _, b := range delta {
+		if !inData[string(b)] {
+			only++
+		}
+	}
+	dr.env.ProbeN("delta_records_written", len(delta))
+	dr.env.ProbeN("item_only_in_delta", only)
+	if only > 0 {
+		dr.env.Probe("backups_needing_their_delta_files")
+	}
+}
+
 func (dr *diskRun) checkDamage() {
 	env := dr.env
 	if dr.err != nil {
 		env.Violate("C05", "store-failed-without-fault", "StoreToDisk returned %v although no I/O fault was injected", dr.err)
 		return
 	}
+	dr.probeDelta()
 	base := env.TempDir()
 	dmgs := allSingleDamages(dr.dir)
 	n, detected, harmless, skipped := 0, 0, 0, 0
@@ -815,6 +874,7 @@ func (dr *diskRun) checkCrashImages(ds *diskSim) {
 		env.Violate("C05", "store-failed-without-fault", "StoreToDisk returned %v although no I/O fault was injected", dr.err)
 		return
 	}
+	dr.probeDelta()
 	n := 0
 	onlyI := env.Plan.Knob("only_image", -1)
 	for i, img := range ds.images {
@@ -1089,4 +1149,68 @@ func sign(x int) int {
 		return 1
 	}
 	return 0
+}
+
+// checkVersion0 rewrites the (already validated) backup in the version-0
+// framing ([2-byte length][bytes], no nitro.json) and restores it.
+func (dr *diskRun) checkVersion0() {
+	env := dr.env
+	for _, b := range dr.content {
+		if len(b) > 65535 {
+			return
+		}
+	}
+	v0 := filepath.Join(env.TempDir(), "v0")
+	if err := copyDir(dr.dir, v0); err != nil {
+		return
+	}
+	os.Remove(filepath.Join(v0, "nitro.json"))
+	for _, sub := range []string{"data", "delta"} {
+		var files []string
+		b, err := os.ReadFile(filepath.Join(v0, sub, "files.json"))
+		if err != nil || json.Unmarshal(b, &files) != nil {
+			continue
+		}
+		sums := make([]uint32, len(files))
+		for i, f := range files {
+			fb, err := os.ReadFile(filepath.Join(v0, sub, f))
+			if err != nil {
+				return
+			}
+			items, _, perr := parseShard(fb, 1)
+			if perr != nil {
+				return
+			}
+			var out []byte
+			for _, it := range items {
+				var pre [2]byte
+				binary.BigEndian.PutUint16(pre[:], uint16(len(it)))
+				out = append(out, pre[:]...)
+				out = append(out, it...)
+				sums[i] ^= crc32IEEE(pre[:]) ^ crc32IEEE(it)
+			}
+			out = append(out, 0, 0)
+			os.WriteFile(filepath.Join(v0, sub, f), out, 0644)
+		}
+		sb, _ := json.Marshal(sums)
+		os.WriteFile(filepath.Join(v0, sub, "checksums.json"), sb, 0644)
+	}
+	lr := dr.load(v0, "v0")
+	switch {
+	case lr.verdict != VQuiescent:
+		env.Violate("C19", "version0-load-does-not-return", "LoadFromDisk of a version-0 directory: %v", lr.verdict)
+		return
+	case lr.panicV != "":
+		env.Violate("C19", "version0-load-panics", "LoadFromDisk of a version-0 directory panicked: %s", lr.panicV)
+		return
+	case lr.err != nil:
+		env.Violate("C19", "version0-load-fails", "LoadFromDisk of a version-0 directory (no nitro.json, 2-byte lengths, checksums over the 2-byte prefixes) returned %v", lr.err)
+	default:
+		if d := diffExact(lr.items, dr.content); d != "" {
+			env.Violate("C19", "version0-content-differs", "version-0 directory restored as: %s", d)
+		}
+	}
+	env.Probe("version0_restores")
+	lr.ne.allocShared = true
+	lr.discard(env)
 }
